@@ -18,7 +18,10 @@ fn dispatch(name: &str, values: &[usize]) -> String {
 fn main() {
     let out = std::env::var("OUT_DIR").unwrap();
     let mut src = String::new();
-    src.push_str(&vcore::codegen::emit_module(&vcore::fixtures::mini()));
+    for spec in [vcore::fixtures::mini(), vcore::fixtures::fx(), vcore::fixtures::ty()] {
+        vcore::spec::Model::build(&spec).expect("fixture must be collision-free");
+        src.push_str(&vcore::codegen::emit_module(&spec));
+    }
     std::fs::write(format!("{}/generated.rs", out), src).unwrap();
 
     let mut n_values: Vec<usize> = (1..=64).collect();
@@ -27,6 +30,8 @@ fn main() {
     let mut d = String::new();
     d.push_str(&dispatch("with_n", &n_values));
     d.push_str(&dispatch("with_cap", &cap_values));
+    // buffer sizes instantiated for the large fixture
+    d.push_str(&dispatch("with_fn", &[8, 16, 24, 32, 48, 64, 96, 128, 192, 256, 512, 1024, 4096]));
     std::fs::write(format!("{}/dispatch.rs", out), d).unwrap();
     println!("cargo:rerun-if-changed=build.rs");
 }
